@@ -188,7 +188,13 @@ def impl_run(n, ops, model_ops=None):
             elif o == "remove":
                 H.remove_rxn(op["id"]); out = "ok"
             elif o == "removeSpecies":
-                H.remove_species(op["sp"], prune_orphans=op["prune"]); out = "ok"
+                # the documented default is prune_orphans=True: leave the argument out for about half of those calls
+                # (chosen by the species name, so a replay takes the same route)
+                if op["prune"] and sum(map(ord, str(op["sp"]))) % 2 == 0:
+                    H.remove_species(op["sp"])
+                else:
+                    H.remove_species(op["sp"], prune_orphans=op["prune"])
+                out = "ok"
             elif o == "merge":
                 H.merge(W[op["j"]], prefix_edges=op["pfx"]); out = "ok"
             elif o == "mergeEdges":
@@ -329,6 +335,8 @@ def alphabet_small():
 ITEM_LISTS = [
     [], ["A"], ["A", "B", "A"], ["", "A"], [""], [["A", 1]], [["A", 2], ["A", 3]], [["A", 0]], [["B", -1], ["C", 2]],
     [["C", 1], "A", ["A", 2], ""], ["C", "B", "A"], [["", 2]], [["B", 12], ["A", 1]], [["A", 0], ["B", 1], ["B", 1]],
+    # bare labels whose length is that of a (label, count) pair: a two-character string is a label, not a pair
+    ["AB"], ["Cd", "A"], [["AB", 2], "Cd", "A"],
 ]
 
 
